@@ -137,9 +137,9 @@ Theorem C03_collection_exec_constructor_establishes_progress_invariant : forall 
 Proof. exact uc_construct_ext. Qed.
 Print Assumptions C03_collection_exec_constructor_establishes_progress_invariant.
 
-(* the premise about the bucket table holds for every max_node_size up to 128, both policies *)
-Theorem C03_collection_bucket_table_ok : forall log2 max, 1 <= max <= 128 -> bucket_table_okb log2 max = true.
-Proof. exact bucket_table_ok_upto_128. Qed.
+(* the premise about the bucket table holds for every max_node_size up to 64, both policies *)
+Theorem C03_collection_bucket_table_ok : forall log2 max, 1 <= max <= 64 -> bucket_table_okb log2 max = true.
+Proof. exact bucket_table_ok_upto_64. Qed.
 Print Assumptions C03_collection_bucket_table_ok.
 
 (* the same progress for the collection over the address-ordered list (array_pool; node_pool with the double-free check): histories
